@@ -279,6 +279,39 @@ static void run_bulk(void)
                 distinct_add_u64(fnv1a(cur_case, strlen(cur_case), 9));
             }
         }
+        /* CTR, second request of a stream: the object carries left-over keystream from a first
+         * request that stopped inside a batch (block-aligned or not); the second request is the one
+         * placed between red zones */
+        {
+            int firsts[8], nf = 0, seconds[8], ns = 0, fi, si, pl;
+            static const int PLACE[4][2] = {{0, 0}, {1, 5}, {11, 3}, {8, 8}};
+            firsts[nf++] = bs; firsts[nf++] = 2 * bs; firsts[nf++] = bs + 3; if (batch > 2 * bs) { firsts[nf++] = batch - bs; firsts[nf++] = batch / 2; }
+            seconds[ns++] = 1; seconds[ns++] = 3; seconds[ns++] = bs - 1; seconds[ns++] = bs + 3; seconds[ns++] = batch + 5;
+            for (fi = 0; fi < nf; ++fi) for (si = 0; si < ns; ++si) {
+                if ((job_ctr++) % g_opts.nshards != g_opts.shard) continue;
+                for (pl = 0; pl < 4; ++pl) for (mode = 0; mode < 2; ++mode) {
+                    CtrObj o; size_t n1 = (size_t)firsts[fi], n = (size_t)seconds[si]; uint8_t *in, *out; static uint8_t ref[1024], got[1024], first_out[1024];
+                    uint8_t *ptrs[2]; size_t ls[2]; int regs[2] = {0, 1};
+                    arena_reset(); memset(&o, 0, sizeof(o));
+                    ctr_init((Cipher)c, be, &o); ctr_set_key((Cipher)c, &o, KEY, c == CK_MANTIS ? 16 : (unsigned)bs * 2, 6); ctr_set_counter((Cipher)c, &o, CTRV, (unsigned)bs);
+                    ctr_encrypt((Cipher)c, &o, ref, DATA, n1 + n);                  /* one request: the reference stream */
+                    ctr_set_counter((Cipher)c, &o, CTRV, (unsigned)bs);
+                    ctr_encrypt((Cipher)c, &o, first_out, DATA, n1);
+                    cur_fn = "ctr_encrypt";
+                    snprintf(cur_case, sizeof(cur_case), "c09 ctr-second %s %s first=%zu len=%zu in+%d out+%d %s", cipher_name((Cipher)c), be_name(be), n1, n, PLACE[pl][0], PLACE[pl][1], mode ? "aliased" : "");
+                    if (CASE_SKIP()) continue;
+                    in = place(0, PLACE[pl][0], n, DATA + n1);
+                    out = mode ? in : place(1, PLACE[pl][1], n, NULL);
+                    GUARDED(ctr_encrypt((Cipher)c, &o, out, in, n));
+                    ptrs[0] = in; ptrs[1] = out; ls[0] = n; ls[1] = n;
+                    after_call(mode ? 1 : 2, regs, ptrs, ls);
+                    memcpy(got, out, n);
+                    if (memcmp(got, ref + n1, n) != 0) fail(mode ? "in-place" : "result-depends-on-alignment", "second request of a stream differs from the same bytes of a single request");
+                    ctr_cleanup((Cipher)c, &o);
+                    distinct_add_u64(fnv1a(cur_case, strlen(cur_case), 9));
+                }
+            }
+        }
         /* parallel ECB */
         {
             int pl[8], np = 0, dir;
